@@ -319,6 +319,33 @@ fn stream_run(s: &mut Stream, k: usize) -> (Vec<Frame>, RunEnd) {
 		s.sound.on_start_processing();
 		s.sound.process(&mut out, s.dt, &info);
 	}
+	// The frames are recovered by playing the sound at rate 1 (Hermite interpolation at fraction 0 = the
+	// current frame) — which only works while the four frames of the interpolation window are moderate:
+	// a float WAV (e.g. an integer file whose format tag was mutated) can hold NaN / inf / 1e38 samples,
+	// and `0.0 * inf` inside the interpolation turns the neighbouring frames into NaN.  Where a rendered
+	// frame is non-finite AND the static load of the same bytes has such a sample in its window, the
+	// static frame is reported instead (nothing can be observed about the stream there).
+	if let Some(reference) = &s.reference {
+		let wild = |f: &Frame| !(f.left.abs() < 1e30 && f.right.abs() < 1e30);
+		for (i, f) in out.iter_mut().enumerate() {
+			if f.left.is_finite() && f.right.is_finite() {
+				continue;
+			}
+			let p = s.slice_start + s.pos + i;
+			let lo = p.saturating_sub(1);
+			let hi = (p + 2).min(reference.len().saturating_sub(1));
+			if reference.is_empty() || lo > hi {
+				continue;
+			}
+			if reference[lo..=hi].iter().any(wild) {
+				if let Some(r) = reference.get(p) {
+					if s.pos + i < s.num_frames {
+						*f = *r;
+					}
+				}
+			}
+		}
+	}
 	if !matches!(end, RunEnd::More) {
 		s.ended = true;
 	}
